@@ -278,6 +278,10 @@ MRecon(st, size) ==
             THEN Ok([a EXCEPT !.econ = size, !.store = [i \in 1..a.n |-> ResizeObs(a.store[i], size)]])
             ELSE Ok([a EXCEPT !.econ = size])
 
+\* reported validity: ignored storage is always valid, otherwise every constraint
+\* (the record size on dim 0, econ on observation dim 0) must be met
+MValid(st) == ~Ready(st) \/ (Len(st.store) = st.n /\ (st.econ = -1 \/ ElemsOf(st) = st.econ))
+
 (***************************************************************************)
 (* Dispatcher.  An operation is a record with field a (the method) and its  *)
 (* arguments.                                                               *)
@@ -312,6 +316,7 @@ MApply(st, o) ==
     [] o.a = "set_duration" -> MRetime(st, st.dtk, o.x, st.incl)
     [] o.a = "set_inclusive" -> MRetime(st, st.dtk, st.durk, o.x)
     [] o.a = "recon"      -> MRecon(st, o.size)
+    [] o.a = "valid"      -> {Out(st, [t |-> "bool", b |-> MValid(st)])}
 
 (***************************************************************************)
 (* Abs layer.  ab = [kind, dty, n, hist, dtk, durk, incl, econ]; no pointer.*)
@@ -449,6 +454,7 @@ AApply(ab, o) ==
     [] o.a = "set_dt"       -> ARetime(ab, o.x, ab.durk, ab.incl)
     [] o.a = "set_duration" -> ARetime(ab, ab.dtk, o.x, ab.incl)
     [] o.a = "set_inclusive" -> ARetime(ab, ab.dtk, ab.durk, o.x)
+    [] o.a = "valid"      -> {Out(ab, [t |-> "bool", b |-> ~AReady(ab) \/ ab.econ = -1 \/ E = ab.econ])}
     [] o.a = "recon"      ->
          IF o.size = -1 THEN (IF ab.econ = -1 THEN Err(ab, "ValueError") ELSE Ok([ab EXCEPT !.econ = -1]))
          ELSE IF ab.econ = -1
